@@ -31,6 +31,9 @@ FEATURES = {
     "chained-pattern": "x3_, y3_ = pair_ = [V, 20]\nprint(x3_, y3_, pair_, type(pair_).__name__)\nr3_ = s3_, t3_ = (V, 5)\nprint(r3_, s3_, t3_)",
     "for-nested-target": "for (k4_, v4_), i4_ in zip({V: 2}.items(), [5]):\n    print(k4_, v4_, i4_)\nfor i5_, (a5_, b5_) in enumerate([(V, 1)]):\n    print(i5_, a5_, b5_)",
     "nested-loops": "for i6_ in range(2):\n    j6_ = 0\n    while j6_ < 3:\n        j6_ += 1\n        if j6_ == 2:\n            break\n        for k6_ in range(2):\n            if k6_:\n                continue\n            print(V, i6_, j6_, k6_)\n    else:\n        print('no break')",
+    # two loops of one scope that both need an interrupt flag: the inner loop's last iteration takes `continue`, the outer
+    # loop re-tests its own flag after the inner loop ran
+    "nested-loop-flags": "for w_ in ['ab cd.', 'e f g!', 'hij']:\n    n_ = 0\n    for c_ in w_:\n        if not c_.isalpha():\n            continue\n        n_ += 1\n    if n_ > 4:\n        break\n    print(V, w_, n_)\nk_ = 0\nwhile k_ < 3:\n    k_ += 1\n    j_ = 0\n    while j_ < 2:\n        j_ += 1\n        if j_ == 2:\n            continue\n        print('inner', j_)\n    if k_ == 3:\n        continue\n    print(V, 'outer', k_)",
     "nested-returns": "def o7_(n):\n    def i7_(m):\n        for q7_ in range(m):\n            if q7_ == 1:\n                return (V, q7_)\n        return None\n    while n:\n        n -= 1\n        if i7_(n):\n            return i7_(n)\n    return 'end'\nprint(o7_(3), o7_(1))",
     "nested-classes": "class O8_:\n    a = V\n    class I8_:\n        b = 2\n        def m(self):\n            return V\n    def n(self):\n        return self.I8_().m()\nprint(O8_.a, O8_.I8_.b, O8_().n())",
     "aug-attr-sub": "class B9_:\n    pass\no9_ = B9_()\no9_.a = [1]\no9_.a += [V]\no9_.a[0] += 5\nd9_ = {'k': {'j': 1}}\nd9_['k']['j'] += 2\nprint(o9_.a, d9_)",
